@@ -98,7 +98,6 @@ class Buffer:
         A simpy.env.timeout() of duration topsim.common.globals.TIMESTEP
         """
         while True:
-            self.events = []
             if self.env.now % 1000 == 0:
                 LOGGER.debug(
                     "\nHotBuffer: %s \nColdBuffer: %s @ %d",
